@@ -37,7 +37,13 @@ def gen_case(seed, tier, i):
         sid[0] += 1
         return SENT % ('f%d' % sid[0])
 
-    names = rng.sample(ADVERSARIAL, rng.randint(3, 6))
+    # the corner "'' on the host's sys.path AND the host's cwd is the project" (python -c / REPL started in the
+    # checkout): Python itself then resolves every lazy import of the host program to project files, so the
+    # corner is only entered with adversarial names that nothing in the host imports on its own
+    combo = rng.random() < 0.12
+    pool = [n for n in ADVERSARIAL if n in ('conftest', 'setup', 'usercustomize', '__main__', 'gi', 'manage',
+                                            'test_adv')] if combo else ADVERSARIAL
+    names = rng.sample(pool, rng.randint(3, 6))
     if 'gi' not in names and rng.random() < 0.6:
         names.append('gi')
     mods = []
@@ -155,6 +161,9 @@ def gen_case(seed, tier, i):
 
     ops = []
     env = rng.choice(['default', 'default', 'default', 'explicit', 'interpreter'])
+    if combo and rng.random() < 0.6:
+        env = 'interpreter'
+
     nsess = rng.randint(2, 4) if tier == 'quick' else rng.randint(2, 7)
     for j in range(nsess):
         b = buffer()
@@ -191,7 +200,7 @@ def gen_case(seed, tier, i):
             ops.append({'op': 'host_restart'})
         elif r < 0.45:
             ops.append({'op': 'gc'})
-    cwd_in = rng.random() < 0.6
+    cwd_in = True if combo else rng.random() < 0.6
     # where the project lives relative to the environment's own sys.path: elsewhere, nested
     # below an entry (monorepo checkout under a PYTHONPATH directory), or a sibling whose name
     # merely starts with an entry
@@ -206,7 +215,7 @@ def gen_case(seed, tier, i):
             # '' on the host's sys.path (interactive session / python -c / embedding host) - but never
             # together with cwd inside the project: then ANY lazy stdlib import of the host program
             # resolves to project files (math.py ...), which is Python's doing, not jedi's
-            'host_path_empty_entry': (not cwd_in) and rng.random() < 0.7, 'place': place}
+            'host_path_empty_entry': True if combo else ((not cwd_in) and rng.random() < 0.7), 'place': place}
 
 
 class C12(base.Engine):
